@@ -1,6 +1,7 @@
 package main
 
 import (
+	"github.com/libsv/go-bt/v2/bscript"
 	"bytes"
 	"encoding/hex"
 	"encoding/json"
@@ -38,10 +39,29 @@ func implPre(tx *bt.Tx, idx uint32, flag sighash.Flag, legacy bool) string {
 	if err != nil {
 		return "err " + errClass(err)
 	}
+	pre0 := pre
 	pre = append([]byte{}, pre...)
-	dig, err := tx.CalcInputSignatureHash(idx, flag)
+	dig0, err := tx.CalcInputSignatureHash(idx, flag)
 	if err != nil {
 		return "err " + errClass(err)
+	}
+	dig := append([]byte{}, dig0...)
+	// the caller owns what it was given: it reuses both buffers, then asks again — the answers must not change
+	for i := range pre0 {
+		pre0[i] = 0xee // fixed values, not a mask: were the buffers library memory, a second pass must not undo the first
+	}
+	for i := range dig0 {
+		dig0[i] = 0xdd
+	}
+	var pre1 []byte
+	if legacy {
+		pre1, _ = tx.CalcInputPreimageLegacy(idx, flag)
+	} else {
+		pre1, _ = tx.CalcInputPreimage(idx, flag)
+	}
+	dig1, _ := tx.CalcInputSignatureHash(idx, flag)
+	if !bytes.Equal(pre1, pre) || !bytes.Equal(dig1, dig) {
+		pre, dig = append([]byte{}, pre1...), append([]byte{}, dig1...) // the later, differing answers are the ones reported
 	}
 	mut := 0
 	if !bytes.Equal(before, tx.ExtendedBytes()) {
@@ -91,9 +111,41 @@ func implPreWithHistory(desc string, idx uint32, flag sighash.Flag, legacy bool)
 }
 
 // both: the fresh computation, or — if it differs — what the object with a history gave
+// implPreShared: the same transaction built the way a wallet builds it — equal scripts are ONE script object (one
+// locking script handed to FromUTXOs for several UTXOs of the same key, one script paid to by several outputs): whether
+// two inputs hold the same pointer must not matter, only their bytes.
+func implPreShared(desc string, idx uint32, flag sighash.Flag, legacy bool) string {
+	tx := parseDesc(desc)
+	seen := map[string]*bscript.Script{}
+	share := func(p **bscript.Script) {
+		if *p == nil {
+			return
+		}
+		k := string(**p)
+		if q, ok := seen[k]; ok {
+			*p = q
+		} else {
+			seen[k] = *p
+		}
+	}
+	for _, in := range tx.Inputs {
+		share(&in.PreviousTxScript)
+	}
+	for _, in := range tx.Inputs {
+		share(&in.UnlockingScript)
+	}
+	for _, o := range tx.Outputs {
+		share(&o.LockingScript)
+	}
+	return implPre(tx, idx, flag, legacy)
+}
+
 func implPreBoth(desc string, idx uint32, flag sighash.Flag, legacy bool) string {
 	fresh := implPre(parseDesc(desc), idx, flag, legacy)
 	if h := implPreWithHistory(desc, idx, flag, legacy); h != fresh {
+		return h
+	}
+	if h := implPreShared(desc, idx, flag, legacy); h != fresh {
 		return h
 	}
 	return fresh
@@ -155,6 +207,23 @@ func genSighash(e *emitter, tier string, seed uint64, legacy bool) {
 			nOut = r.n(nIn)
 		}
 		tx := genSigTx(r, nIn, nOut, true)
+		if s%4 == 1 && nIn > 1 {
+			// several inputs spending outputs of the same key (equal previous scripts), outputs paying to one script, an
+			// unlocking script equal to a previous script
+			for i := 1; i < nIn; i++ {
+				if tx.Inputs[0].PreviousTxScript != nil && r.chance(70) {
+					tx.Inputs[i].PreviousTxScript = scr(append([]byte{}, *tx.Inputs[0].PreviousTxScript...))
+				}
+			}
+			for i := 1; i < nOut; i++ {
+				if r.chance(50) {
+					tx.Outputs[i].LockingScript = scr(append([]byte{}, *tx.Outputs[0].LockingScript...))
+				}
+			}
+			if tx.Inputs[0].PreviousTxScript != nil && r.chance(50) {
+				tx.Inputs[nIn-1].UnlockingScript = scr(append([]byte{}, *tx.Inputs[0].PreviousTxScript...))
+			}
+		}
 		d := descTx(tx)
 		idxs := []uint32{0, uint32(nIn - 1), uint32(r.n(nIn)), uint32(nIn), 0xffffffff}
 		// every 8-bit hash type of this family on two indices, a sample on the rest
